@@ -48,7 +48,7 @@ def case_strategy(draw):
         c["trials"] = draw(st.sampled_from(["n", "n", "40", "trials=n", "trials=40", "n + 1"]))
         c["float_counts"] = draw(st.integers(0, 3)) == 0  # integer-valued float columns are valid counts
     elif kind == "prop_invalid":
-        c["what"] = draw(st.sampled_from(["float_successes", "successes_gt_trials", "successes_gt_trials_one_row", "float_successes_one_row", "float_trials", "float_constant", "successes_not_a_name"]))
+        c["what"] = draw(st.sampled_from(["float_successes", "successes_gt_trials", "successes_gt_trials_one_row", "float_successes_one_row", "float_trials", "float_constant", "successes_not_a_name", "missing_success_kept"]))
     elif kind == "identity":
         c["expr"] = draw(st.sampled_from(["x + z", "x * 2", "x ** 2", "(x + z) / 2", "-x", "x - z * 3", "np.abs(x)", "x > 0"]))
         c["brace"] = draw(st.booleans())
@@ -94,9 +94,9 @@ def judge(ctx, case):
     nontrivial = bool(case.get("fresh")) or len(set(case["new_rows"])) < len(frame)
     classes = ["kind:" + kind]
 
-    def build(f, fr=frame):
+    def build(f, fr=frame, **kw):
         with core.Guard():
-            return design_matrices(f, fr, extra_namespace=ns)
+            return design_matrices(f, fr, extra_namespace=ns, **kw)
 
     def done(formula, nt=nontrivial, extra=()):
         ctx.count(core.canon([formula, spec, case["new_rows"], case.get("fresh"), case.get("fresh_seed")]), nt, classes + list(extra),
@@ -236,11 +236,16 @@ def judge(ctx, case):
             formula = "prop(s, n) ~ x"
         elif what == "float_constant":
             formula = "prop(s, 40.5) ~ x"
+        elif what == "missing_success_kept":
+            # na_action='pass' keeps the row: a missing count is not an integer number of successes
+            fr["s"] = fr["s"].astype(float)
+            fr.loc[fr.index[len(fr) // 3], "s"] = np.nan
+            formula = "prop(s, n) ~ x"
         else:
             formula = "prop(3, n) ~ x"
         done(formula, nt=True, extra=["invalid:" + what])
         try:
-            build(formula, fr)
+            build(formula, fr, **({"na_action": "pass"} if what == "missing_success_kept" else {}))
         except Exception:  # pylint: disable=broad-except
             return
         ctx.fail("prop", dict(case, formula=formula), f"{formula!r} with {what} was accepted", "invalid:" + what)
